@@ -433,6 +433,10 @@ impl<'a> Eval<'a> {
                 if a.is_empty() {
                     return Err(ErrKind::TempTarget);
                 }
+                // the target is an existing directory
+                if p.is_empty() || self.w.files.keys().any(|k| k.starts_with(&format!("{p}/"))) {
+                    return Err(ErrKind::TempTarget);
+                }
                 // parent directory must exist: some file lives in it or it is the root
                 let pd = dir_of(&p).to_string();
                 if !pd.is_empty() && !self.w.files.keys().any(|k| k.starts_with(&format!("{pd}/"))) {
